@@ -73,7 +73,7 @@ CLAIMS = {
 }
 
 EXTRA = {
-    "C01": " Also: one positional sequence for list members (M2), date-times as instants (Z-R3..Z-R7), closed writer cannot emit <X /> (Q-R6), header/body hand-over (B, H rules). Round 5: every class found under its tag (S-R2), millisecond format (L-R3). Round 6: reader rules V-R1..V-R7 (entity decoder decodes once), only B-R1/B-R3/B-R6 of the header family. Round 7: to_etree builds its result on every call (M3), the closed writer writes characters, not character references (Q-R6). Round 8: Integer reader not through float (T-R3), groom overrides only retag (U-R9). Round 9: constraints in validate_args are route-independent - kwargs values are not ordered or computed with (S-R6d).",
+    "C01": " Also: one positional sequence for list members (M2), date-times as instants (Z-R3..Z-R7), closed writer cannot emit <X /> (Q-R6), header/body hand-over (B, H rules). Round 5: every class found under its tag (S-R2), millisecond format (L-R3). Round 6: reader rules V-R1..V-R7 (entity decoder decodes once), only B-R1/B-R3/B-R6 of the header family. Round 7: to_etree builds its result on every call (M3), the closed writer writes characters, not character references (Q-R6). Round 8: Integer reader not through float (T-R3), groom overrides only retag (U-R9). Round 9: constraints in validate_args are route-independent - kwargs values are not ordered or computed with (S-R6d). Z-R5b (sign of [-0.30]).",
     "C02": " Also: tag group of unbounded length (X-R1), tail group independent of the end-tag group (X-R7), every match dispatched (P-R6), no early exit from the token loop (P-R7). Round 5: the stack of open tags is per instance (P-R1). Round 7: start() refuses nothing but a second root (P-R3). Round 9: one tokenizer - no second markup parser constructed in ofxtools.Parser (P-R8).",
     "C03": " Also: no decimal context arithmetic in the converters (T-R6b), tokenizer rules X-R*; comma never dropped (V-R7), no implicit concatenation in token tables (V-R8), one sequence for list members (M2), grammar and carrier date of times (Z-R1, Z-R6). Round 5: normalised values labelled UTC (Z-R4), CHARSET codec table (H-R2). Round 6: values at a limit reach the model (T-R4), one descriptor per child (S-R9), reducer rules also on the loop form of the fold. Round 8: groom overrides only retag (U-R9). Round 9: OFXTree.convert() builds the model in every call (P-R9); limit switches are declarations, not run-time state (T-R4b). One seeded change declined (enumeration contents are specification data).",
     "C04": " Also: guard tables T-R4 measure the value itself. Round 6: a declared child is never skipped without trace (F-R4), order guard decided on paths, loop form of the fold. Round 7: mutex members counted by `is not None` (F-R5, structural), groupby in overrides fed sorted input (S-R6), mutex tables re-iterable (E-R7). Round 8: per-class tables not read through inheritance, also under computed names (S-R10). Round 9: overrides forward *args/**kwargs as received (S-R6), constraints route-independent (S-R6d), groom overrides do not re-sequence children (F-R4b = U-R9).",
@@ -81,8 +81,8 @@ EXTRA = {
     "C06": " Also: aware datetimes are never relabelled (Z-R7), writer offset notation (Z-R3), closed writer (Q-R6). Round 5: what is sorted and grouped is the whole multiset of requests (Q-R7). Round 6: string writers return what was checked (Q-R8 = T-R3). Round 7: constructor arguments stored and profile sign-on anonymous (Q-R9 = N-R9/N-R6). Round 8: keyword values are the caller's values unedited and flags not hard-wired (Q-R2), composing stores nothing on the client (Q-R10). Round 9: supplied text is kept - no str reader reached from Element.__set__ decodes entities (T-R10; known finding F6 on today's tree); offset minutes take the sign of the hours (Z-R5); indent() stores only indentation (W-R7).",
     "C07": " Also: positional deletions in descending order (U-R7), every matched tag dispatched / no early exit (P-R6, P-R7), tokenizer rules X-R*. Round 5: .text/.tail of unknown elements never used as an object unguarded (U-R8); open-tag stack per instance (P-R1). Round 6: loop form of the fold (break in the unknown-tag branch), membership test in place of the try (U-R1). Round 9: loop form of the fold - state carried between children is not assigned on the unknown-tag path (U-R1b).",
     "C08": " Also: every matched tag dispatched (P-R6), no early exit from the token loop (P-R7), tail group independent (X-R7), body handed over whole (H-R1). Round 5: open-tag stack per instance (P-R1). Round 6: the tail group matches every non-'<' run from its first character (X-R4). Round 9: one tokenizer (P-R8); no invented end - self.end() only from the dispatcher on a tested match (P-R10).",
-    "C09": " Also: whole-hour offsets and zone-table fallback (Z-R4); carrier date of Time arithmetic (Z-R6), aware values kept (Z-R7), awareness decided by utcoffset() (Z-R2), zone-name group admits written names (Z-R3). Round 5: UTC label (Z-R4), range tests on offset hours admit -12..+14 (Z-R8), no run-time memo table in the date routines (Z-R9), exact millisecond format (L-R3). Round 6: only int() may fail in the statement that falls back to the zone table (Z-R4).",
-    "C10": " Also Z-R2/Z-R4..Z-R7 for the date/time converters. Round 5: OneOf.valid never re-bound to one member (T-R3). Round 6: date/time grammar (T-R8 = Z-R1/Z-R1b), len(str(value)) is not a digit count (T-R4). Round 7: writer inside the reader's grammar (T-R9 = Z-R3). Round 9: no handler registered for a foreign type, Union annotations split (T-R1); limit switches never assigned at run time (T-R4b); the two decode tables (V-R5, V-R6); supplied text kept (T-R10; known finding F6).",
+    "C09": " Also: whole-hour offsets and zone-table fallback (Z-R4); carrier date of Time arithmetic (Z-R6), aware values kept (Z-R7), awareness decided by utcoffset() (Z-R2), zone-name group admits written names (Z-R3). Round 5: UTC label (Z-R4), range tests on offset hours admit -12..+14 (Z-R8), no run-time memo table in the date routines (Z-R9), exact millisecond format (L-R3). Round 6: only int() may fail in the statement that falls back to the zone table (Z-R4). Round 9: the sign of an offset survives an hours field of zero - int(<hours text>) needs a test of the text's sign character (Z-R5b; D9 fixed in e4b95cf).",
+    "C10": " Also Z-R2/Z-R4..Z-R7 for the date/time converters. Round 5: OneOf.valid never re-bound to one member (T-R3). Round 6: date/time grammar (T-R8 = Z-R1/Z-R1b), len(str(value)) is not a digit count (T-R4). Round 7: writer inside the reader's grammar (T-R9 = Z-R3). Round 9: no handler registered for a foreign type, Union annotations split (T-R1); limit switches never assigned at run time (T-R4b); the two decode tables (V-R5, V-R6); supplied text kept (T-R10; known finding F6). Z-R5b (sign of [-0.30]).",
     "C11": " Also: length guard measures the value (T-R4), offset notation (Z-R3), list elements through their converter (L-R4). Round 7: offset pieces cut from strftime('%z') with both bounds (Z-R3). Round 9: limit switches (String.strict ...) never assigned at run time (T-R4b).",
     "C12": " Also: mandatory fields on the pattern's mandatory spine (B-R7), no bounded repetition at the unanchored end (B-R8), routing by int(version)//100 (leading-digit routing recognised as wrong). Round 5: the refusing side of the validators is evaluated here too (T-R2/T-R3/T-R4); v1 token fields admit exactly the OFX 1.x tokens (B-R4). Round 6: no field normalised before validation (B-R2). Round 7: int()-converted fields captured by digit-only groups (B-R11); header text validated as read, byte for character (B-R12 = chunk clauses of H-R1). Round 9: digit count never by two-argument math.log (T-R4); a `version` parameter of a request method is never dropped (B-R13 = version clause of Q-R1); T-R4b.",
     "C13": " Also: one descriptor object per child (S-R9), token tables without implicit concatenation (V-R8). Round 5: no class-level table remembered on cls and read through inheritance (S-R10). Round 7: every child an override tests can be supplied (S-R6c, exhaustive truth table), mutex tables re-iterable (S-R11 = E-R7). Round 9: groom/ungroom overrides only rename (S-R11 = U-R9, helpers followed, elem[:] = ...); route-independent constraints (S-R6d).",
